@@ -208,6 +208,8 @@ func (concCore) handle(ws []string) string {
 			return "bad-op"
 		}
 		return concSrv(atoi(ws[1]), atoi(ws[2]), atoi(ws[3]))
+	case "ret":
+		return concRet(atoi(ws[1]), atoi(ws[2]), atoi(ws[3]), atoi(ws[4]))
 	case "run", "lap":
 		npub, nmsg, size, qos, bufsize := atoi(ws[1]), atoi(ws[2]), atoi(ws[3]), atoi(ws[4]), atoi(ws[5])
 		// "lap": the subscriber stops reading until the publishers' writes stall - the subscriber's
@@ -343,6 +345,146 @@ func (concCore) handle(ws []string) string {
 	return "bad-op"
 }
 
+// concRet: `conc ret <nsub> <rounds> <size> <bufsize>` - retained updates concurrent to new subscriptions.
+// One client keeps re-publishing the retained message of topic r/v, alternating between two payloads that are
+// each one repeated byte; <nsub> clients subscribe (literal and wildcard filters matching r/v), take what
+// arrives, unsubscribe, <rounds> times.  Every PUBLISH a subscriber receives must carry one of the two
+// payloads intact (a mixture is a copy torn by a concurrent update), and between each SUBACK and the
+// UNSUBACK that follows there must be a copy with the RETAIN flag set.  The expected line is the same for every interleaving.
+func concRet(nsub, rounds, size, bufsize int) string {
+	svr := newServer(int64(bufsize))
+	pub, ok := rawConnect(svr, 1, simpleConnect("retpub", 300, nil))
+	if !ok {
+		return "pub-refused"
+	}
+	mk := func(b byte) []byte {
+		pl := make([]byte, size)
+		for i := range pl {
+			pl[i] = b
+		}
+		return wPub{qos: 0, retain: true, topic: []byte("r/v"), payload: pl}.encode()
+	}
+	pa, pb := mk('A'), mk('B')
+	pub.write(pa)
+	bar := &brokerCore{clients: map[int]*rawClient{}}
+	if !bar.barrier(pub) {
+		return "pub-stalled"
+	}
+	stop := make(chan struct{})
+	pubDone := make(chan struct{})
+	go func() {
+		defer close(pubDone)
+		for i := 0; ; i++ {
+			select {
+			case <-stop:
+				return
+			default:
+			}
+			pk := pa
+			if i%2 == 0 {
+				pk = pb
+			}
+			if pub.write(pk) != nil {
+				return
+			}
+		}
+	}()
+	filters := []string{"r/v", "r/+", "r/#", "#", "+/v"}
+	var mu sync.Mutex
+	wellformed, flagged, count := 1, 1, 0
+	var wg sync.WaitGroup
+	for k := 0; k < nsub; k++ {
+		c, ok := rawConnect(svr, 10+k, simpleConnect(fmt.Sprintf("retsub%d", k), 300, nil))
+		if !ok {
+			close(stop)
+			return "sub-refused"
+		}
+		wg.Add(1)
+		go func(k int, c *rawClient) {
+			defer wg.Done()
+			defer c.conn.Close()
+			for i := 0; i < rounds; i++ {
+				f := filters[(k+i)%len(filters)]
+				c.take()
+				c.write(wSubscribe(1+i%60000, [][]byte{[]byte(f)}, []int{0}))
+				// SUBACK and the retained message behind it
+				got := c.waitUntil(func() bool {
+					seenAck := false
+					for _, it := range c.items {
+						if strings.HasPrefix(it, "SUBACK") {
+							seenAck = true
+						} else if seenAck && strings.HasPrefix(it, "PUB ") {
+							return true
+						}
+					}
+					return false
+				}, brokerWait)
+				c.write(wUnsubscribe(1+i%60000, [][]byte{[]byte(f)}))
+				c.waitUntil(func() bool {
+					for _, it := range c.items {
+						if strings.HasPrefix(it, "UNSUBACK") {
+							return true
+						}
+					}
+					return false
+				}, brokerWait)
+				items := c.take()
+				mu.Lock()
+				if !got {
+					wellformed = 0
+				}
+				// (a live forward of a concurrent update - RETAIN 0 - may overtake the retained copy: the
+				// subscription is in the tree before the SUBACK is written; what must be there, between
+				// SUBACK and UNSUBACK, is a copy with RETAIN 1)
+				afterAck, sawRetained := false, false
+				for _, it := range items {
+					if it == "MALFORMED" || it == "TRUNCATED" {
+						wellformed = 0
+					}
+					if strings.HasPrefix(it, "SUBACK") {
+						afterAck = true
+						continue
+					}
+					if !strings.HasPrefix(it, "PUB ") {
+						continue
+					}
+					w := strings.Fields(it)
+					pl := unhex(w[6])
+					if len(pl) != size || (pl[0] != 'A' && pl[0] != 'B') {
+						wellformed = 0
+					}
+					for _, x := range pl {
+						if x != pl[0] {
+							wellformed = 0
+							break
+						}
+					}
+					if afterAck && w[3] == "1" {
+						sawRetained = true
+					}
+				}
+				if !sawRetained {
+					flagged = 0
+				}
+				count++
+				mu.Unlock()
+			}
+		}(k, c)
+	}
+	done := make(chan struct{})
+	go func() { wg.Wait(); close(done) }()
+	res := ""
+	select {
+	case <-done:
+	case <-time.After(90 * time.Second):
+		res = " TIMEOUT"
+	}
+	close(stop)
+	pub.conn.Close()
+	<-pubDone
+	return fmt.Sprintf("wellformed=%d ordered=%d count=%d%s", wellformed, flagged, count, res)
+}
+
 func genConc(seed int64, n int, tier string, w *bufio.Writer) {
 	r := rand.New(rand.NewSource(seed))
 	fmt.Fprintln(w, "conc reset")
@@ -357,6 +499,11 @@ func genConc(seed int64, n int, tier string, w *bufio.Writer) {
 			size = 100000 + pick(r, []int{1200, 3007, 6000})
 			nmsg = 120 + r.Intn(200)
 			npub = 1 + r.Intn(3)
+		}
+		if i%8 == 6 {
+			// retained updates concurrent to new subscriptions (the stored message is rewritten in place)
+			fmt.Fprintf(w, "conc ret %d %d %d %d\n", 2+r.Intn(4), 40+r.Intn(80), pick(r, []int{2000, 20000, 60000}), 256*1024)
+			continue
 		}
 		if i%4 == 3 {
 			// overlapping in-process publishes (Server.Publish from several goroutines at once)
